@@ -179,7 +179,12 @@ pub fn project_index(ctx: &mut Ctx, ir: &IndexRaw, metric: Metric, dim: usize, w
                 } else {
                     Vec::new()
                 };
-                nodes.push(json!({"id": *nid as i64, "tag":"S", "l": cr(left, ctx), "r": cr(right, ctx), "zero": zero, "ms": ms}));
+                // the plane itself as a token of its bytes: a phase that rewrites a split must keep its plane
+                let pt = {
+                    let key: Vec<f32> = normal.iter().map(|b| *b as f32).collect();
+                    ctx.tok(&[&[-7.25f32][..], &key[..]].concat())
+                };
+                nodes.push(json!({"id": *nid as i64, "tag":"S", "l": cr(left, ctx), "r": cr(right, ctx), "zero": zero, "ms": ms, "pt": pt}));
             }
         }
     }
